@@ -116,22 +116,30 @@ def global_cost_iv(points, reduced, metric):
     hi_sum *= (1 + REL)
     total = n + nseg - 1
     if metric == 'r2':
-        # TSS about the mean: tss(m) = tss(m*) + n (m - m*)^2, so any evaluation whose mean is within dm of
-        # the exactly rounded mean m* lands in [tss*, tss* + n dm^2] (plus term rounding).  dm bounds the error
-        # of any reasonable summation (naive, pairwise or compensated) of n values: n u max|y|.
+        # TSS about the mean: for the exact mean m*, tss(m) = tss(m*) + n (m - m*)^2 >= tss(m*), so any evaluation
+        # whose mean is within dm of m* lands in [tss*, tss* + n dm^2] (the subtraction y - m of nearby numbers is
+        # exact or relatively accurate, so term rounding is a relative 1e-12 matter).  dm bounds the error of any
+        # reasonable summation (naive, pairwise, compensated) of n values: 2 n u max|y|.
         n_y = len(y)
-        ym = math.fsum(y.tolist()) / n_y
-        tss = math.fsum(((y - ym) ** 2).tolist())
-        # tss == 0 exactly iff all y equal (then every evaluation gives exactly 0)
         if np.all(y == y[0]):
+            # tss == 0 exactly iff all y are equal (then every evaluation gives exactly 0)
             lo = 1.0 - hi_sum
             hi = 1.0 - lo_sum
         else:
-            dm = 2.0 * n_y * U * float(np.max(np.abs(y)))
-            # the centred values y - m carry rounding of their own: (|y - m| + dm + u|y|)^2 per term
-            dev = np.abs(y - ym)
-            t_lo = max(math.fsum((np.maximum(dev - dm - 2 * U * np.abs(y), 0.0) ** 2).tolist()) * (1 - 1e-12), 0.0)
-            t_hi = math.fsum(((dev + dm + 2 * U * np.abs(y)) ** 2).tolist()) * (1 + 1e-12)
+            ymax = float(np.max(np.abs(y)))
+            ym = math.fsum(y.tolist()) / n_y
+            dev = y - ym
+            if float(np.max(np.abs(dev))) < 1e-6 * ymax and n_y <= 20000:
+                # nearly constant curve: the float mean itself is too coarse, use exact rational arithmetic
+                from fractions import Fraction
+                fy = [Fraction(float(v)) for v in y.tolist()]
+                fm = sum(fy) / n_y
+                tss = float(sum((v - fm) ** 2 for v in fy))
+            else:
+                tss = math.fsum((dev * dev).tolist())
+            dm = 2.0 * n_y * U * ymax
+            t_lo = tss * (1 - 1e-11) - 1e-300
+            t_hi = (tss + n_y * dm * dm) * (1 + 1e-11) + 1e-300
             if t_lo <= 0:
                 return 0.0, math.inf
             q_lo = lo_sum / t_hi
